@@ -131,14 +131,14 @@ pub fn parse_arguments(to_parse: &str) -> Result<Vec<Unifiable>, String> {
                     has_digit = true
                 }
                 else if ch == '+' || ch == '-' {
-                    argument.push(ch);
                     // Plus or minus might be in front of a number: +7, -3.8
-                    // In this case, it is part of the number.
+                    // In this case, it is part of the number. Anywhere
+                    // else (5-3, well-known), it makes the term an atom.
+                    let first = argument.trim().len() == 0;
+                    argument.push(ch);
                     let mut next_ch = 'x';
                     if i < length_chrs - 1 { next_ch = chrs[i + 1]; }
-                    let mut prev_ch = ' ';
-                    if i > 0 { prev_ch = chrs[i]; }
-                    if prev_ch == ' ' && (next_ch < '0' || next_ch > '9') {
+                    if !first || next_ch < '0' || next_ch > '9' {
                         has_non_digit = true;
                     }
                 }
@@ -389,11 +389,15 @@ pub fn parse_term(to_parse: &str) -> Result<Unifiable, String> {
         return Ok(sfunc);
     }
 
-    for ch in &chrs {
+    for (i, ch) in chrs.iter().enumerate() {
         if *ch >= '0' && *ch <= '9' {
             has_digit = true;
         } else if *ch == '.' {
             has_period = true;
+        } else if i == 0 && (*ch == '+' || *ch == '-') && chrs.len() > 1 &&
+                  chrs[1] >= '0' && chrs[1] <= '9' {
+            // Plus or minus in front of a number: +7, -3.8
+            // As in parse_arguments(), it is part of the number.
         } else {
             has_non_digit = true;
         }
